@@ -1303,6 +1303,13 @@ func (s *Service) queuedExecute(w http.ResponseWriter, r *http.Request, qp Query
 		return
 	}
 
+	// The queue retries a batch until it succeeds, so a request the Store will always
+	// refuse must be turned away here, or it blocks every request queued behind it.
+	if err := (*store.PragmaCheckRequest)(&proto.Request{Statements: stmts}).Check(); err != nil {
+		http.Error(w, err.Error(), http.StatusBadRequest)
+		return
+	}
+
 	var fc queue.FlushChannel
 	if qp.Wait() {
 		stats.Add(numQueuedExecutionsWait, 1)
